@@ -46,7 +46,7 @@ def apply_edit(root, edit):
 
 
 SWEEP_CACHE = os.environ.get('VERIF_SWEEP_CACHE', '/tmp/qverif_sweepcache')
-SWEEP_CACHE_KEEP = int(os.environ.get('VERIF_SWEEP_CACHE_KEEP', '90'))
+SWEEP_CACHE_KEEP = int(os.environ.get('VERIF_SWEEP_CACHE_KEEP', '160'))
 
 
 def facts_for(repo_dir):
@@ -81,7 +81,15 @@ def run_rules_on(prop, repo_dir):
     out = facts_for(repo_dir)
     if out is None:
         return 'does-not-compile', [], False
-    F = factsmod.Facts(out)
+    try:
+        F = factsmod.Facts(out)
+    except (FileNotFoundError, ValueError):
+        # the cache entry was pruned by a concurrent run between the lookup and the load: extract again
+        shutil.rmtree(out, ignore_errors=True)
+        out = facts_for(repo_dir)
+        if out is None:
+            return 'does-not-compile', [], False
+        F = factsmod.Facts(out)
     mod = importlib.import_module('rules.' + prop.lower())
     ck = core.Check(prop, 'thorough', F, level=getattr(mod, 'LEVEL', 'other'))
     try:
